@@ -116,6 +116,28 @@ def prove_fast(ob):
     return v, s.to_smt2()
 
 
+def qf_refute(ob, v):
+    """last resort after every back end gave up on the full query (quantified definitional axioms in the path condition): a
+    model of the quantifier-free part that falsifies the goal is reported as a refutation candidate ("axioms set aside").
+    Never reached for obligations some back end discharges."""
+    from .interp import Interp
+    if z3.is_false(z3.simplify(ob.goal)) or Interp.has_quant(ob.goal):
+        return v
+    qf = [c for c in ob.pc if not Interp.has_quant(c)]
+    if len(qf) == len(ob.pc):
+        return v
+    t0 = time.time()
+    s3 = z3.Solver()
+    s3.set('timeout', FAST_MS)
+    s3.add(*qf)
+    s3.add(z3.Not(ob.goal))
+    if s3.check() == z3.sat:
+        v.status, v.backend, v.model = 'refuted', 'z3', _model_to_dict(s3.model())
+        v.reason = 'goal falsified by a model of the quantifier-free part of the path condition (quantified axioms set aside)'
+    v.seconds += time.time() - t0
+    return v
+
+
 def race(smt2, timeout_s):
     """run cvc5 (--strings-exp) and z3-new on the same query; first definitive answer wins,
     the other process is killed.  -> (cvc5_answer, z3new_answer) with 'unknown' for the loser"""
@@ -199,6 +221,9 @@ def prove_all(obligations, timeout_s=20, second_solver=False, jobs=8):
             prove_slow(v, smt2, timeout_s)
         with ThreadPoolExecutor(jobs) as ex:
             list(ex.map(work, slow))
+        for i, _ in slow:
+            if verdicts[i].status == 'undecided':
+                qf_refute(obligations[i], verdicts[i])          # main thread: z3's API is not thread-safe
     return verdicts
 
 
